@@ -683,9 +683,55 @@ def correspond_stmts_i(ctx, corr):
                                            what="variable statement `%s`: %s" % (' '.join(toks), msg)))
 
 
+def correspond_typedefs(ctx, corr):
+    """typedef statements: extracted typedef_stmt vs the typedefs of parse_string"""
+    from harness import members
+    rng = ctx.rng
+    cases = []
+    for _ in range(ctx.scale(500, 10000)):
+        base = rng.choice(['Foo', 'Bar', 'T'])
+        pre = [rng.choice(['const', 'volatile', 'const', 'static', 'inline', 'mutable']) for _ in range(rng.choice([0, 0, 1, 2]))]
+        toks = pre + [base]
+        n = rng.choice([1, 2, 3])
+        for i in range(n):
+            while True:
+                t = rebase(decl.rand_type(rng, rng.choice([0, 1, 2, 4])), ('B', base, False, False))
+                if decl.legal(t) and decl.var_ok(t):
+                    break
+            if i:
+                toks.append(',')
+            toks += decl.print_layers(decl.layers(t)[1], ['t%d' % i])
+            if rng.random() < 0.08:
+                toks += rng.choice([['=', '1'], [':', '3'], ['{', '}']])
+        toks.append(';')
+        cases.append((toks, n))
+        if rng.random() < 0.3:
+            mt = c02.mutate(rng, toks[:-1]) + [';']
+            cases.append((mt, mt.count(',') + 1))
+    ms = members.run_members(93, cases)
+    for (toks, n), m in zip(cases, ms):
+        corr.cases += 1
+        r = real_typedefs('typedef ' + ' '.join(toks))
+        key = "typedef:" + (m[0] if m[0] == 'ok' else 'err%d' % m[1]) + "/" + r[0]
+        corr.dist[key] = corr.dist.get(key, 0) + 1
+        msg = None
+        if m[0] == 'ok' and m[3] == 0:
+            mm = [(nm, t) for nm, t, bits, val in m[2]]
+            if r[0] == 'err':
+                msg = "model decodes the typedef statement but the implementation rejects it"
+            elif r[0] == 'ok' and r[1] != mm:
+                msg = "model %s; implementation %s" % (mm, r[1])
+        elif m[0] == 'err' and m[1] in (1, 2, 3) and r[0] == 'ok':
+            msg = "model rejects (code %d) but the implementation reports %s" % (m[1], r[1])
+        if msg:
+            corr.disagreements.append(dict(case=dict(kind='corr-typedef', tokens=toks, n=n), model=str(m)[:300], impl=str(r)[:300],
+                                           what="typedef statement `%s`: %s" % (' '.join(toks), msg)))
+
+
 def correspond(ctx):
     corr = Corr()
     rng = ctx.rng
+    correspond_typedefs(ctx, corr)
     correspond_stmts_i(ctx, corr)
     correspond_fn_stmts(ctx, corr)
     correspond_stmts(ctx, corr)
